@@ -162,3 +162,27 @@ def glue_tasks():
                 recs.append(_rec(f"glue.{nm}.result_term", False, f"structure drift: {type(e).__name__}: {e}", status="unknown"))
         return recs, {"t": round(time.time() - t0, 3)}
     return [task]
+
+
+def tomography_glue_tasks():
+    """density_matrix(full) of both fitters = _compute_density_matrix_from_pauli_expectation_values(self.expectation_values(full_hilbert_space=full)); the full-state
+    fitter's expectation_values is the union over circuits of the stabilizer fitter's (checked by C10.fitter.*)."""
+    def task():
+        import htstabilizer.tomography as T
+        t0 = time.time()
+        recs = []
+        for cls in (T.FullStateTomographyFitter, T.StabilizerMeasurementFitter):
+            name = f"glue.density_matrix[{cls.__name__}]"
+            try:
+                it = I.Interp(modular={T._compute_density_matrix_from_pauli_expectation_values: lambda interp, a, k, g: Tok("linear_inversion", *a, **k),
+                                       cls.expectation_values: lambda interp, a, k, g: Tok("expectation_values", *a, **k)})
+                it.auto_stub = lambda f, a, k: Tok("unexpected_callee:" + f.__name__, *a, **k)
+                selfobj = Tok("SELF")
+                flag = Tok("FLAG")
+                res = it.run(cls.density_matrix, [selfobj], {"full_hilbert_space": flag})
+                want = Tok("linear_inversion", Tok("call", Tok("attr:expectation_values", selfobj), full_hilbert_space=flag))      # self.expectation_values(full_hilbert_space=flag)
+                recs.append(_rec(name, same(res, want) and not it.raised, f"got {res}, want {want}"))
+            except (S.Unsupported, NameError, AttributeError, TypeError) as e:
+                recs.append(_rec(name, False, f"structure drift: {type(e).__name__}: {e}", status="unknown"))
+        return recs, {"t": round(time.time() - t0, 3)}
+    return [task]
